@@ -193,9 +193,10 @@ func startsWithBrace(n *N) bool {
 // Renderer writes a program as text: simple statements on one line each,
 // blocks opened on the header line, and records each node's line.
 type Renderer struct {
-	sb   strings.Builder
-	line int
-	ind  int
+	sb      strings.Builder
+	line    int
+	ind     int
+	oneLine bool
 }
 
 // Render writes the statements and sets Line on every node.
@@ -207,6 +208,16 @@ func Render(prog []*N) string {
 	return r.sb.String()
 }
 
+// RenderOneLine writes the whole program on a single line (every node's Line is 1).
+// Strings containing newlines still advance the line counter.
+func RenderOneLine(prog []*N) string {
+	r := &Renderer{line: 1, oneLine: true}
+	for _, s := range prog {
+		r.stmt(s)
+	}
+	return strings.TrimRight(r.sb.String(), " ") + "\n"
+}
+
 // RenderExpr renders a single expression (Line fields set to 1).
 func RenderExpr(e *N) string {
 	r := &Renderer{line: 1}
@@ -215,11 +226,18 @@ func RenderExpr(e *N) string {
 }
 
 func (r *Renderer) nl() {
+	if r.oneLine {
+		r.sb.WriteByte(' ')
+		return
+	}
 	r.sb.WriteByte('\n')
 	r.line++
 }
 func (r *Renderer) w(s string) { r.sb.WriteString(s) }
 func (r *Renderer) indent() {
+	if r.oneLine {
+		return
+	}
 	for i := 0; i < r.ind; i++ {
 		r.sb.WriteString("  ")
 	}
